@@ -146,24 +146,65 @@ def tab14(units, R):
     if len(copies) != 1:
         raise AnalysisBroken('TAB14: cannot identify the copy in cJSON_Duplicate_rec')
     copy = copies.pop()
+    # contexts: the duplicator itself, and a static helper that builds the node when the copy is what it returns
+    # (newitem = duplicate_node(item, hooks)): (function, its copy variable, its source parameter)
+    contexts = [(fn, copy, src['d'])]
+    inits = [(a['l'], a['r']) for a in assignments(fn) if a['op'] == '=']
+    inits += [({'k': 'ref', 'd': d['d']}, d['init']) for d in fn.locals() if 'init' in d]
+    for (l, r0) in inits:
+        l = strip_casts(l)
+        r = strip_casts(r0)
+        if l.get('k') == 'ref' and l.get('d') == copy and r.get('k') == 'call' and callee_name(r) in u.functions:
+            h = u.functions[callee_name(r)]
+            if not h.static or h.name == fn.name or h.body is None:
+                continue
+            hsrc = [p for p, a0 in zip(h.params, r['args']) if strip_casts(a0).get('k') == 'ref' and strip_casts(a0).get('d') == src['d']]
+            hrets = {strip_casts(x['e'])['d'] for x in h.nodes() if x.get('k') == 'return' and 'e' in x and not is_null_const(x['e'])
+                     and strip_casts(x['e']).get('k') == 'ref'}
+            if len(hsrc) == 1 and len(hrets) == 1 and any(
+                    strip_casts(a['l']).get('k') == 'mem' and strip_casts(strip_casts(a['l'])['b']).get('d') in hrets for a in assignments(h)):
+                contexts.append((h, next(iter(hrets)), hsrc[0]['d']))
+    srcs = {c[2] for c in contexts}
+    ctx_of = {}
     stores = {}
-    for a in assignments(fn):
-        l = strip_casts(a['l'])
-        if l.get('k') == 'mem' and is_ref(l['b']) and strip_casts(l['b'])['d'] == copy:
-            stores.setdefault(l['f'], []).append(a)
+    for (F, cpy, _s) in contexts:
+        for a in assignments(F):
+            l = strip_casts(a['l'])
+            if l.get('k') == 'mem' and is_ref(l['b']) and strip_casts(l['b'])['d'] == cpy:
+                stores.setdefault(l['f'], []).append(a)
+                ctx_of[a['id']] = F
 
     def derives_from_source(e):
         for x in walk(e):
-            if x.get('k') == 'ref' and x.get('d') == src['d']:
+            if x.get('k') == 'ref' and x.get('d') in srcs:
                 return True
         return False
-    locals_fresh = {}
-    for a in assignments(fn):
-        if is_ref(a['l']):
-            r = strip_casts(a['r'])
-            d = strip_casts(a['l'])['d']
-            good = r.get('k') == 'call' and callee_name(r) in fresh
-            locals_fresh[d] = locals_fresh.get(d, True) and (good or is_null_const(a['r']))
+    # locals that only ever hold fresh allocations (or NULL, or the value of another such local): greatest fixpoint
+    defs = {}
+    params_all = set()
+    for (F, _c, _s) in contexts:
+        params_all |= {p['d'] for p in F.params}
+        for a in assignments(F):
+            if is_ref(a['l']):
+                defs.setdefault(strip_casts(a['l'])['d'], []).append(a['r'] if a['op'] == '=' else None)
+        for dcl in F.locals():
+            if 'init' in dcl:
+                defs.setdefault(dcl['d'], []).append(dcl['init'])
+    locals_fresh = {d: True for d in defs if d not in params_all}
+    changed = True
+    while changed:
+        changed = False
+        for d, rs in defs.items():
+            if not locals_fresh.get(d):
+                continue
+            for r0 in rs:
+                r = strip_casts(r0) if r0 is not None else {}
+                good = r0 is not None and ((r.get('k') == 'call' and callee_name(r) in fresh) or is_null_const(r0) or r.get('null') or
+                                           (r.get('k') == 'ref' and locals_fresh.get(r.get('d'))))
+                if not good:
+                    locals_fresh[d] = False
+                    changed = True
+                    break
     for (name, t) in fields:
         st = stores.get(name, [])
         if name in ('next', 'prev'):
@@ -240,21 +281,89 @@ def tab14(units, R):
                         break
                 else:
                     why = 'pointer field assigned %s (shares memory with the source)' % expr_str(r)[:50]
-                R.ob('TAB14', fn, a, 'pointer field %s of the copy is independent of the source' % name, ok, why,
+                R.ob('TAB14', ctx_of.get(a['id'], fn), a, 'pointer field %s of the copy is independent of the source' % name, ok, why,
                      key='ptr:%s:%s' % (name, 'ok' if ok else expr_str(r)[:40]))
             elif name == 'type':
-                ok = False
-                if r.get('k') == 'bin' and r['op'] == '&':
-                    for (x, y) in ((r['l'], r['r']), (r['r'], r['l'])):
-                        m = const_val(y)
-                        if m is not None and (m & 256) == 0 and (m & 0x2FF) == 0x2FF and derives_from_source(x):
-                            ok = True
-                R.ob('TAB14', fn, a, 'type is copied with cJSON_IsReference cleared and every other bit kept', ok,
-                     expr_str(r)[:60], key='type')
+                continue        # decided below for the value the copy is returned with
             else:
                 ok = r.get('k') == 'mem' and r['f'] == name and derives_from_source(r)
-                R.ob('TAB14', fn, a, 'scalar field %s copied from the same field of the source' % name, ok, expr_str(r)[:50],
+                R.ob('TAB14', ctx_of.get(a['id'], fn), a, 'scalar field %s copied from the same field of the source' % name, ok, expr_str(r)[:50],
                      key='scalar:' + name)
+    # type: at every return of the copy, copy->type is source->type with cJSON_IsReference cleared and every other bit kept.
+    # Followed as "which bits of the source's type survive" along the paths, through the node-building helper if there is one.
+    FULL = 0xFFFFFFFF
+
+    def type_masks(F, cpy, sd, depth=0):
+        """{return node id: set of masks (None = not the source's type)} for the returns of the copy"""
+        fcfg = F.cfg()
+        state = {fcfg.entry.id: {('unset',)}}
+        work = [fcfg.entry.id]
+        out = {}
+
+        def mask_of(e):
+            e = strip_casts(e)
+            if e.get('k') == 'mem' and e['f'] == 'type' and is_ref(e['b']) and strip_casts(e['b']).get('d') == sd:
+                return FULL
+            if e.get('k') == 'bin' and e['op'] == '&':
+                for (x, y) in ((e['l'], e['r']), (e['r'], e['l'])):
+                    m = const_val(y)
+                    mx = mask_of(x)
+                    if m is not None and mx is not None:
+                        return mx & (m & FULL)
+            return None
+        while work:
+            nid = work.pop()
+            node = fcfg.nodes[nid]
+            cur = set(state[nid])
+            root = node.expr if node.expr is not None else (node.decl.get('init') if node.kind == 'decl' and node.decl and 'init' in node.decl else None)
+            if node.kind == 'decl' and node.decl and node.decl.get('d') == cpy and root is not None:
+                r = strip_casts(root)
+                cur = call_masks(r, depth)
+            elif root is not None:
+                for x in walk(root):
+                    if x.get('k') != 'bin' or x.get('op') not in ASSIGN_OPS:
+                        continue
+                    l = strip_casts(x['l'])
+                    if l.get('k') == 'ref' and l.get('d') == cpy and x['op'] == '=':
+                        cur = call_masks(strip_casts(x['r']), depth)
+                    elif l.get('k') == 'mem' and l['f'] == 'type' and is_ref(l['b']) and strip_casts(l['b']).get('d') == cpy:
+                        if x['op'] == '=':
+                            cur = {mask_of(x['r'])}
+                        elif x['op'] == '&=' and const_val(x['r']) is not None:
+                            cur = {(None if m is None or m == ('unset',) else m & (const_val(x['r']) & FULL)) for m in cur}
+                        else:
+                            cur = {None}
+            if node.kind == 'return' and node.expr is not None and strip_casts(node.expr).get('k') == 'ref' and strip_casts(node.expr)['d'] == cpy:
+                out[nid] = cur
+            for (y, _l) in fcfg.succ[nid]:
+                old = state.get(y, set())
+                if not cur <= old:
+                    state[y] = old | cur
+                    work.append(y)
+        return out, fcfg
+
+    def call_masks(r, depth):
+        if r.get('k') == 'call':
+            for (F2, c2, s2) in contexts[1:]:
+                if callee_name(r) == F2.name and depth < 2:
+                    o, _c = type_masks(F2, c2, s2, depth + 1)
+                    ms = set()
+                    for v in o.values():
+                        ms |= v
+                    return ms or {('unset',)}
+        return {('unset',)}
+    tm, tcfg = type_masks(fn, copy, src['d'])
+    if not tm:
+        raise AnalysisBroken('TAB14: no return of the copy found in %s' % fn.name)
+    for nid, masks in sorted(tm.items()):
+        node = tcfg.nodes[nid]
+        bad = [m for m in masks if m is None or m == ('unset',) or (m & 256) or (m & 0x2FF) != 0x2FF]
+        R.ob('TAB14', fn, node.stmt, 'the copy is returned with the source\'s type, cJSON_IsReference cleared and every other bit kept', not bad,
+             'bits kept: %s' % sorted(hex(m) for m in masks if isinstance(m, int)) if not bad else
+             ('on some path the reference bit survives (bits kept: %s)' % hex(bad[0]) if isinstance(bad[0], int) and (bad[0] & 256) else
+              'on some path the type is %s' % ('never stored' if bad[0] == ('unset',) else 'not the source\'s type with bits removed'
+                                              if bad[0] is None else 'stripped of more than the reference bit (%s)' % hex(bad[0]))),
+             key='type:%d' % (0 if not bad else 1))
     # no whole-struct copy
     for c in fn.calls():
         if callee_name(c) in ('memcpy', 'memmove'):
@@ -275,13 +384,6 @@ def tab14(units, R):
         R.ob('TAB14', fn, x, 'children are visited only when recurse is set', ok, '', key='recurse-guard')
     # the copy may hold a borrowed (constant) key only while its type already says so: whoever releases the half-built copy
     # on a failure path looks at copy->type to decide whether the key is its to free
-    key_stores = []
-    for a in stores.get('string', []):
-        r = strip_casts(a['r'])
-        definitely_fresh = (r.get('k') == 'call' and callee_name(r) in fresh) or is_null_const(a['r']) or \
-            (r.get('k') == 'ref' and locals_fresh.get(r['d']))
-        if not definitely_fresh:
-            key_stores.append(a)
     def keeps_const_bit(r):
         r = strip_casts(r)
         if r.get('k') == 'mem' and r['f'] == 'type' and derives_from_source(r):
@@ -294,29 +396,47 @@ def tab14(units, R):
         if r.get('k') == 'bin' and r['op'] == '|':
             return keeps_const_bit(r['l']) or keeps_const_bit(r['r'])
         return False
-    type_stores = [a for a in stores.get('type', []) if a['op'] == '=' and keeps_const_bit(a['r'])]
-    releases = []
-    for c in fn.calls():
-        if callee_name(c) == 'cJSON_Delete' and c['args'] and is_ref(c['args'][0]) and strip_casts(c['args'][0])['d'] == copy:
-            releases.append(c)
-    if key_stores and releases:
-        T = {node_containing(cfg, a).id for a in type_stores}
-        before = cfg.reachable(cfg.entry.id, stop=T) | {cfg.entry.id}
+    for (F, cpy, _sd) in contexts:
+        fcfg = F.cfg()
+        key_stores = []
+        for a in stores.get('string', []):
+            if ctx_of.get(a['id']) is not F:
+                continue
+            r = strip_casts(a['r'])
+            definitely_fresh = (r.get('k') == 'call' and callee_name(r) in fresh) or is_null_const(a['r']) or \
+                (r.get('k') == 'ref' and locals_fresh.get(r['d']))
+            if not definitely_fresh:
+                key_stores.append(a)
+        type_stores = [a for a in stores.get('type', []) if ctx_of.get(a['id']) is F and a['op'] == '=' and keeps_const_bit(a['r'])]
+        releases = []
+        for c in F.calls():
+            if callee_name(c) == 'cJSON_Delete' and c['args'] and is_ref(c['args'][0]) and strip_casts(c['args'][0])['d'] == cpy:
+                releases.append(c)
+        if not (key_stores and releases):
+            continue
+        T = {node_containing(fcfg, a).id for a in type_stores}
+        # a copy that comes out of the node-building helper already carries its type
+        if F is fn and len(contexts) > 1:
+            for m in fcfg.nodes:
+                root = m.expr if m.expr is not None else (m.decl.get('init') if m.kind == 'decl' and m.decl and 'init' in m.decl else None)
+                if root is not None and any(x.get('k') == 'call' and callee_name(x) in {c[0].name for c in contexts[1:]} for x in walk(root)):
+                    T.add(m.id)
+        before = fcfg.reachable(fcfg.entry.id, stop=T) | {fcfg.entry.id}
         for a in key_stores:
-            S = node_containing(cfg, a).id
+            S = node_containing(fcfg, a).id
             ok = True
             why = 'the type (with its constant-key bit) is stored on every path before the copy can be released'
             if S in before and S not in T:
-                after = cfg.reachable(S, stop=T)
+                after = fcfg.reachable(S, stop=T)
                 for c in releases:
-                    D = node_containing(cfg, c).id
+                    D = node_containing(fcfg, c).id
                     if D in after:
                         ok = False
                         why = 'a failure path releases the copy at line %d after it received a possibly constant key at line %d but ' \
                               'before its type was stored: cJSON_Delete would free the key it shares with the source' % (
-                                  cfg.nodes[D].line, cfg.nodes[S].line)
+                                  fcfg.nodes[D].line, fcfg.nodes[S].line)
                         break
-            R.ob('TAB14', fn, a, 'a shared constant key is never on the copy without its cJSON_StringIsConst bit', ok, why,
+            R.ob('TAB14', F, a, 'a shared constant key is never on the copy without its cJSON_StringIsConst bit', ok, why,
                  key='key-before-type')
     R.floor('TAB14', 'fields of struct cJSON', len(fields), 8)
 
